@@ -25,7 +25,8 @@ RULE = ("(a) qualified names built from cluster (absent, or a string over letter
         "and without cache) and a fresh process calls, queries, lists and traces; non-trivial = distinct name "
         "strings containing at least one of ':' '#' '@' in cluster or version, plus every evolution kind x cluster"
         '; evolutions include re-clustering with the explicit version kept'
-        "; rounds 7-9: signature changes with the explicit version kept (dropped / swapped / prepended parameters), the callee nested in a class, the removed callee's name left bound to another function of the same explicit version")
+        "; rounds 7-9: signature changes with the explicit version kept (dropped / swapped / prepended parameters), the callee nested in a class, the removed callee's name left bound to another function of the same explicit version"
+        "; rounds 10-11: the callee's module moved into a package with the old module kept as a re-export")
 ASSUMPTIONS = ["a qualified name that has more than one valid decomposition under the documented grammar "
                "[cluster::]module:function[#version] cannot be split back by any parser; such strings are "
                "classified by an independent enumerator and reported as the one known finding",
